@@ -160,6 +160,7 @@ class Run:
         self.globals = {}
         self.obligations = []
         self.spec = 0
+        self.modular = 0        # > 0 while a callee's contract is evaluated at a call site
         self.next_ref = None
         self.old = None
         self.loop_counter = itertools.count()
@@ -1181,6 +1182,20 @@ class SpecCtx:
     @property
     def old_ghost(self):
         return self.run.old["ghost"]
+
+    @property
+    def old_next_ref(self):
+        """allocation counter at entry: every reference >= it is an object created by this call"""
+        return self.run.old.get("next_ref", z3.Int("next_ref0"))
+
+    def opaque(self, name, args, fn):
+        """Opaque predicate `name(args)` DEFINED as fn(*args) (fn must use nothing but its arguments and global functions).
+        Callers carry the predicate as an uninterpreted atom; only a unit that lists `name` in `reveal=` gets the
+        definitional instance  name(args) == fn(*args)  for the argument tuples its own contract mentions."""
+        P = ops.uf(name, *[a.sort() for a in args], z3.BoolSort())(*args)
+        if not self.run.modular and name in self.run.x.c.reveal:
+            self.run.pc.append(P == fn(*args))
+        return P
 
     def define_array(self, dom, rng, fn, name="def"):
         """Definitional extension: a fresh array A with  forall i. A[i] == fn(i)  (always satisfiable)."""
